@@ -164,9 +164,36 @@ def _gate_in(u, fn, scc_names):
                 ok = True
                 why = 'guarded by %s %s %s; %s' % (cs, op, macro, grows)
                 break
+            if counter.get('k') == 'mem':
+                # guarded here; the increment may sit in the function that is called (checked per cycle by the caller)
+                ok = 'guard-only'
+                why = 'guarded by %s %s %s; the counter is incremented elsewhere on the cycle' % (cs, op, macro)
+                counter_field = counter['f']
+                break
         details.append((c, ok, why))
-        allok = allok and ok
+        allok = allok and bool(ok)
     return (allok, 'gate', details)
+
+
+def _increments_before_recursion(u, fn, scc_names, field='depth'):
+    """every call of fn into the cycle is reached only after an increment of <buffer>->field, and that buffer is handed on"""
+    cfg = fn.cfg()
+    rec_calls = [c for c in fn.calls() if callee_name(c) in scc_names]
+    if not rec_calls:
+        return None
+    incs = {}
+    for n2 in cfg.nodes:
+        for ev in node_effects(n2):
+            l = strip_casts(ev.lhs) if ev.kind in ('incdec', 'store') else None
+            if l is None or l.get('k') != 'mem' or l['f'] != field:
+                continue
+            if (ev.kind == 'incdec' and ev.delta > 0) or (ev.kind == 'store' and ev.node['op'] == '+=' and (const_val(ev.node['r']) or 0) >= 1):
+                incs.setdefault(expr_str(strip_casts(l['b'])), set()).add(n2.id)
+    for base, nodes in incs.items():
+        before = cfg.reachable(cfg.entry.id, stop=nodes) | {cfg.entry.id}
+        if all(node_containing(cfg, c).id not in before and any(expr_str(strip_casts(a)) == base for a in c['args']) for c in rec_calls):
+            return True
+    return False
 
 
 def tab1(units, R, unit_name='cJSON.c', claim=('parse_value', 'cJSON_Duplicate_rec')):
@@ -186,23 +213,32 @@ def tab1(units, R, unit_name='cJSON.c', claim=('parse_value', 'cJSON_Duplicate_r
             continue
         ncl += 1
         gate_fns = set()
+        grow_fns = set()
+        guard_only = False
         for n in sorted(names):
             res = _gate_in(u, u.functions[n], names)
             if res is None:
                 continue
             ok, _d, details = res
             for (c, cok, why) in details:
-                R.ob('TAB1', u.functions[n], c, 'recursive call %s is depth-gated' % callee_name(c), cok, why,
+                R.ob('TAB1', u.functions[n], c, 'recursive call %s is depth-gated' % callee_name(c), bool(cok), why,
                      key='gate:%s' % callee_name(c))
+                guard_only = guard_only or cok == 'guard-only'
             if ok and details:
                 gate_fns.add(n)
-        # removing the gate functions must break every cycle
-        rest = names - gate_fns
-        g2 = {n: {m for m in g[n] if m in rest} for n in rest}
-        left = [c for c in _sccs(g2, set(g2)) if len(c) > 1 or c[0] in g2.get(c[0], ())]
-        R.ob('TAB1', u.functions[sorted(names)[0]], None, 'every cycle of {%s} passes a gate' % ', '.join(sorted(names)),
-             not left, 'gates: %s' % sorted(gate_fns) if not left else 'ungated cycle through %s' % sorted(left[0]),
-             key='cycle:' + ','.join(sorted(names)))
+                if all(cok is True for (_c, cok, _w) in details):
+                    grow_fns.add(n)        # gate and increment in the same function
+        for n in sorted(names):
+            if _increments_before_recursion(u, u.functions[n], names):
+                grow_fns.add(n)
+        # removing the gate functions must break every cycle, and so must removing the functions that increment the counter
+        for (what, fns, key) in (('passes a gate', gate_fns, 'cycle'), ('increments the depth counter', grow_fns, 'cycle-grows')):
+            rest = names - fns
+            g2 = {n: {m for m in g[n] if m in rest} for n in rest}
+            left = [c for c in _sccs(g2, set(g2)) if len(c) > 1 or c[0] in g2.get(c[0], ())]
+            R.ob('TAB1', u.functions[sorted(names)[0]], None, 'every cycle of {%s} %s' % (', '.join(sorted(names)), what),
+                 not left, '%s' % sorted(fns) if not left else 'a cycle through %s does not' % sorted(left[0]),
+                 key=key + ':' + ','.join(sorted(names)))
     R.floor('TAB1', 'gated recursion cycles', ncl, len(claim))
 
 
@@ -712,8 +748,69 @@ def tab4(units, R):
     fn = u.fn('parse_value')
     cfg = fn.cfg()
     found = {}
+    # helpers that consume a literal handed to them: compare <length parameter> bytes at the cursor with <text parameter>
+    # and, behind the equal edge only, return non-zero having advanced the offset by the same parameter
+    consumers = {}
+    for h in u.function_list:
+        if not h.static or h.name == fn.name:
+            continue
+        pidx = {pp['d']: i for i, pp in enumerate(h.params)}
+        hcfg = h.cfg()
+        for b in hcfg.nodes:
+            if b.kind != 'branch':
+                continue
+            p = cmp_parts(b.expr)
+            if p is None or p[2] != 0 or p[1] not in ('==', '!=') or p[0].get('k') != 'call' or callee_name(p[0]) not in ('strncmp', 'memcmp'):
+                continue
+            args = [strip_casts(a) for a in p[0]['args']]
+            if len(args) != 3 or args[2].get('d') not in pidx:
+                continue
+            tp = [a for a in args[:2] if a.get('k') == 'ref' and a.get('d') in pidx]
+            if not tp:
+                continue
+            eq_pol = 'T' if p[1] == '==' else 'F'
+            rets = [r for r in hcfg.returns() if r.expr is not None and const_val(r.expr) != 0]
+            good = bool(rets) and all(guarded_by(hcfg, r.id, lambda nn, l, b=b, eq_pol=eq_pol: nn.id == b.id and l is not None and l[0] == eq_pol)
+                                      for r in rets)
+            adv_nodes = set()
+            for m in hcfg.nodes:
+                if m.kind == 'stmt' and strip_casts(m.expr).get('k') == 'bin' and strip_casts(m.expr)['op'] == '+=' and \
+                        is_mem(strip_casts(m.expr)['l'], 'offset') and strip_casts(strip_casts(m.expr)['r']).get('d') == args[2]['d']:
+                    adv_nodes.add(m.id)
+            advanced = bool(adv_nodes) and all(r.id not in (hcfg.reachable(hcfg.entry.id, stop=adv_nodes) | {hcfg.entry.id}) for r in rets)
+            if good and advanced:
+                consumers[h.name] = (pidx[tp[0]['d']], pidx[args[2]['d']])
     for b in cfg.nodes:
         if b.kind != 'branch':
+            continue
+        e0 = strip_casts(b.expr)
+        pol = 'T'
+        hc = None
+        if e0.get('k') == 'call' and callee_name(e0) in consumers:
+            hc = e0
+        else:
+            pz = cmp_parts(e0)
+            if pz is not None and pz[2] == 0 and pz[1] in ('==', '!=') and strip_casts(pz[0]).get('k') == 'call' and \
+                    callee_name(strip_casts(pz[0])) in consumers:
+                hc = strip_casts(pz[0])
+                pol = 'T' if pz[1] == '!=' else 'F'
+        if hc is not None:
+            ti, li = consumers[callee_name(hc)]
+            lit = strip_casts(hc['args'][ti]) if ti < len(hc['args']) else {}
+            nn = const_val(hc['args'][li]) if li < len(hc['args']) else None
+            if lit.get('k') != 'str' or nn is None:
+                continue
+            text = bytes(lit['bytes']).decode('latin1')
+            reg = set()
+            for (y, l) in cfg.succ[b.id]:
+                if l and l[0] == pol:
+                    reg |= cfg.reachable(y) | {y}
+            kind = None
+            for m in sorted(reg):
+                mn = cfg.nodes[m]
+                if mn.kind == 'stmt' and mn.expr.get('k') == 'bin' and mn.expr['op'] == '=' and is_mem(mn.expr['l'], 'type') and kind is None:
+                    kind = const_val(mn.expr['r'])
+            found[text] = (nn, nn, kind, b)
             continue
         p = cmp_parts(b.expr)
         if p is None or p[1] != '==' or p[2] != 0 or p[0].get('k') != 'call' or callee_name(p[0]) not in ('strncmp', 'memcmp'):
